@@ -45,6 +45,9 @@ FIELD_TYPES = {
     ('SupvisorsOptions', 'disabilities_file'): TOpt(STR),
     ('SupvisorsOptions', 'rules_files'): TOpt(TList(STR)),
     ('ProcessCommand', 'minimum_ticks'): INT,
+    # ApplicationStatus(application_name, rules: ApplicationRules, supvisors): single construction site (Context.setdefault_application) passes a fresh ApplicationRules
+    ('ApplicationStatus', 'rules'): TObj('ApplicationRules'),
+    ('Commander', 'class_name'): STR,   # type(self).__name__, only used in log messages
     ('SupvisorsInstanceStatus', 'stats_collector'): TOpt(TObj('StatisticsCollectorProcess')),
 }
 
